@@ -123,16 +123,22 @@ structure AdlCfg where
 bytes, the highest being `lastOpt` (< 23): `coap_write_block_b_opt` writes Block2 (it may already reduce the size),
 then `coap_add_data_large_internal` runs its block-size selection with Size2 and ETag (`etagLen` value bytes) as the
 options it adds: these are the arguments `adlBody` is called with.  `none` = refused before (4.00 / 5.00). -/
-def rspCfg (maxSize tokLen optBytes lastOpt maxBlk length etagLen : Nat) (reqSzx : Nat) : Option AdlCfg :=
-  match writeBlockBOpt maxSize (tokLen + optBytes) 0 reqSzx length with
-  | .ok b val =>
-    let tokOpts0 := tokLen + optBytes + optEncodeSize (23 - lastOpt) val.length
-    let b0 := adlBlkSize (adlAvail maxSize tokOpts0 tokLen)
-    let b1 := if maxBlk ≠ 0 ∧ b0 > maxBlk then maxBlk else b0
-    let b2 := if b.aszx < b1 then b.aszx else b1
-    some { maxSize := maxSize, tokLen := tokLen, base := tokLen + optBytes, d := 23 - lastOpt, tokOpts0 := tokOpts0, b2 := b2,
-           extra := optEncodeSize (28 - 23) (varLen length) + optEncodeSize 4 etagLen, blk := some b.aszx }
+def rspCfgOf (maxSize tokLen optBytes lastOpt maxBlk length etagLen : Nat) (b : BlockB) (val : Bytes) : AdlCfg :=
+  let tokOpts0 := tokLen + optBytes + optEncodeSize (23 - lastOpt) val.length
+  let b0 := adlBlkSize (adlAvail maxSize tokOpts0 tokLen)
+  let b1 := if maxBlk ≠ 0 ∧ b0 > maxBlk then maxBlk else b0
+  let b2 := if b.aszx < b1 then b.aszx else b1
+  { maxSize := maxSize, tokLen := tokLen, base := tokLen + optBytes, d := 23 - lastOpt, tokOpts0 := tokOpts0, b2 := b2,
+    extra := optEncodeSize (28 - 23) (varLen length) + optEncodeSize 4 etagLen, blk := some b.aszx }
+
+/-- return value 1 of `coap_write_block_b_opt` -/
+def writeOk : WriteRes → Option (BlockB × Bytes)
+  | .ok b val => some (b, val)
   | _ => none
+
+def rspCfg (maxSize tokLen optBytes lastOpt maxBlk length etagLen : Nat) (reqSzx : Nat) : Option AdlCfg :=
+  (writeOk (writeBlockBOpt maxSize (tokLen + optBytes) 0 reqSzx length)).map
+    (fun p => rspCfgOf maxSize tokLen optBytes lastOpt maxBlk length etagLen p.1 p.2)
 
 /-- the first response: `adlBody` on those arguments -/
 def addDataLargeRsp (maxSize tokLen optBytes lastOpt reqSzx maxBlk length etagLen : Nat) : Option AdlRes :=
